@@ -621,6 +621,7 @@ def ns_cases(ctx, st, drv, tab, fn, path, cb, cs, label, corr=True):
     check_range(ctx, st, fn, path, out, cb, cs, known_below)
     if path == "cmyk":
         check_k_rule(ctx, fn, cb, cs, out)
+        check_cmyk_bound(ctx, fn, cb, cs, out)
     if path == "rgb":
         sp = spec_ns(fn, a64, b64)
         ok = off_discontinuity_ns(fn, a64, b64)
@@ -650,6 +651,48 @@ def ns_cases(ctx, st, drv, tab, fn, path, cb, cs, label, corr=True):
 
 
 KTOL = 1e-7
+EPS_WRAPPER = 1e-9            # the literal of _rgb2cmy (regenerated: Generated/Blend.lean numericConstants)
+
+
+def check_cmyk_bound(ctx, fn, cb, cs, out):
+    """The explicit bound of the CMYK wrapper (search; no model involved; Props.C12.cmyk_range_bound / cmyk_full_k_is_zero):
+    where the source's K is exactly 1 the result's C, M, Y are exactly 0; where K < 1 they are >= -K / (1 - K + eps) (and <= 1:
+    check_range). The known finding C12/cmyk-wrapper/range/below-zero lives INSIDE this interval; a value below the bound - an
+    unbounded blow-up at the boundary K = 1, a lost mask - is a failing input of its own signature."""
+    ks = cs[:, 3].astype(np.float64)
+    cmy = out[:, :3]
+    fin = np.isfinite(cmy).all(axis=1)
+    full = ks >= 1.0
+    ctx.hist("cmyk_bound", f"{fn}:source-K=1", int(full.sum()))
+    ctx.hist("cmyk_bound", f"{fn}:source-K<1", int((~full).sum()))
+    bad1 = full & fin & (np.abs(cmy).max(axis=1) > RANGE_SLACK)
+    with np.errstate(all="ignore"):
+        lo = np.where(full, 0.0, -ks / (1.0 - ks + EPS_WRAPPER))
+        slack = 1e-5 + 4e-6 / (1.0 - np.minimum(ks, 1.0) + EPS_WRAPPER) + 1e-5 * np.abs(lo)
+    bad2 = ~full & fin & (cmy.min(axis=1) < lo - slack)
+    for mask, sig, what, want in (
+            (bad1, f"C12/cmyk-wrapper/range/{fn}/nonzero-cmy-at-source-K-1",
+             f"{fn} on CMYK with the source's K = 1 (100 % black) returns C, M, Y other than 0: the wrapper leaves them at 0 where K is not below 1",
+             "C = M = Y = 0 (cmyk_full_k_is_zero)"),
+            (bad2, f"C12/cmyk-wrapper/range/{fn}/below-the-bound-of-cmyk_range_bound",
+             f"{fn} on CMYK returns C, M or Y below -K / (1 - K + 1e-9), the lowest value the wrapper can produce from a blended RGB in [0,1]",
+             "C, M, Y >= -K / (1 - K + 1e-9) (cmyk_range_bound)")):
+        if mask.any():
+            i = int(np.argmax(mask))
+            ctx.fail(sig, what, case_of(fn, "cmyk", cb, cs, i), out[i].tolist(), want)
+
+
+def cmyk_boundary_stream(near_one=False):
+    """Seed-independent: every channel of backdrop AND source at its boundary values - C, M, Y in {0, 1/2, 1} x K in {0, 1/2, 1}
+    (3^8 = 6561 ordered pairs; K = 0 and K = 1 exactly on both sides). near_one: the pairs whose source K is the float32
+    just below 1 instead (search only: the quotient by 1 - K amplifies float32 rounding beyond any useful correspondence tolerance)."""
+    g = [0.0, 0.5, 1.0]
+    kk = [float(np.nextafter(np.float32(1), np.float32(0)))] if near_one else g
+    cols_b = [(c, m, y, k) for c in g for m in g for y in g for k in g]
+    cols_s = [(c, m, y, k) for c in g for m in g for y in g for k in kk]
+    cb = [b for b in cols_b for _ in cols_s]
+    cs = [s_ for _ in cols_b for s_ in cols_s]
+    return np.array(cb, dtype=np.float32), np.array(cs, dtype=np.float32)
 
 
 def check_k_rule(ctx, fn, cb, cs, out):
@@ -783,6 +826,149 @@ def lattice_exhaustive(ctx, st, tab, block):
 
 
 # ------------------------------------------------------------------------------------------
+# purity: sequences of calls (search; no model involved)
+# ------------------------------------------------------------------------------------------
+PURITY_SCENARIOS = ["result-as-backdrop", "result-as-source", "result-as-both", "same-array-twice", "strided-views",
+                    "held-result-after-second-call"]
+NS_NAMES = set(NONSEP)
+
+
+def blend_functions():
+    """every distinct function object reachable through BLEND_FUNC (any key: BlendMode, descriptor Enum, bytes), with the first
+    key that reaches it -> [(name, key repr, function)]"""
+    from psd_tools.composite.blend import BLEND_FUNC
+    seen, out = set(), []
+    for k, f in BLEND_FUNC.items():
+        if id(f) in seen:
+            continue
+        seen.add(id(f))
+        out.append((getattr(f, "__name__", repr(f)), getattr(k, "name", None) or repr(k), f))
+    return out
+
+
+def purity_arrays(ch, dtype, shape=(2, 3)):
+    """seed-independent inputs: boundary values of every channel and a few interior ones"""
+    vals = np.array([0.0, 1.0, 0.5, 0.25, 0.75, 1 / 255, 254 / 255, 0.1, 0.9, 0.6, 0.3, 0.45])
+    rs = np.random.RandomState(1200 + ch)
+    return {k: rs.choice(vals, size=shape + (ch,)).astype(dtype).tolist() for k in ("a", "b", "a2", "b2")}
+
+
+def _same(x, y):
+    x, y = np.asarray(x), np.asarray(y)
+    return x.shape == y.shape and bool(np.array_equal(x.astype(np.float64), y.astype(np.float64), equal_nan=True))
+
+
+def purity_scenario(f, scenario, arrs, dtype):
+    """One multi-call scenario on the real function -> None | (kind, observed, expected). The reference of every comparison is
+    the SAME function on fresh copies of the same values (a single call on fresh arrays is what the grids above compare with
+    the published formula), so no oracle of the values is needed here."""
+    dt = np.dtype(dtype)
+    a, b, a2, b2 = (np.array(arrs[k], dtype=dt) for k in ("a", "b", "a2", "b2"))
+    fresh = lambda v: np.array(v, copy=True)
+
+    def call_checked(x, y, role):
+        """f(x, y): x, y must be unchanged afterwards and the value must be that of the call on fresh copies"""
+        sx, sy = fresh(x), fresh(y)
+        out = f(x, y)
+        got = fresh(out)
+        if not _same(x, sx):
+            return ("modifies-Cb" + role, np.asarray(x).tolist(), sx.tolist())
+        if not _same(y, sy):
+            return ("modifies-Cs" + role, np.asarray(y).tolist(), sy.tolist())
+        want = fresh(f(fresh(sx), fresh(sy)))
+        if not _same(got, want):
+            return ("value-differs-from-the-call-on-fresh-copies" + role, got.tolist(), want.tolist())
+        return None
+
+    with np.errstate(all="ignore"):
+        if scenario == "result-as-backdrop":        # a layer stack: backdrop_{n+1} = B(backdrop_n, layer_n)
+            x = np.asarray(f(a, b))
+            r = call_checked(x, b2, "-when-the-backdrop-is-a-previous-result")
+            return r or call_checked(np.asarray(f(x, b2)), a2, "-when-the-backdrop-is-a-previous-result")
+        if scenario == "result-as-source":
+            return call_checked(a2, np.asarray(f(a, b)), "-when-the-source-is-a-previous-result")
+        if scenario == "result-as-both":
+            return call_checked(np.asarray(f(a, b)), np.asarray(f(a2, b2)), "-when-both-arguments-are-previous-results")
+        if scenario == "same-array-twice":
+            sa = fresh(a)
+            got = fresh(f(a, a))
+            if not _same(a, sa):
+                return ("modifies-the-array-passed-as-both-arguments", a.tolist(), sa.tolist())
+            want = fresh(f(fresh(sa), fresh(sa)))
+            return None if _same(got, want) else ("value-differs-from-the-call-on-fresh-copies-when-Cb-is-Cs", got.tolist(), want.tolist())
+        if scenario == "strided-views":
+            big_a, big_b = np.repeat(np.repeat(a, 2, axis=0), 2, axis=1), np.repeat(np.repeat(b, 2, axis=0), 2, axis=1)
+            sa, sb = fresh(big_a), fresh(big_b)
+            got = fresh(f(big_a[::2, ::2], big_b[::2, ::2]))
+            if not (_same(big_a, sa) and _same(big_b, sb)):
+                return ("modifies-the-array-an-argument-is-a-view-of", big_a.tolist(), sa.tolist())
+            want = fresh(f(fresh(a), fresh(b)))
+            return None if _same(got, want) else ("value-differs-for-non-contiguous-arguments", got.tolist(), want.tolist())
+        if scenario == "held-result-after-second-call":
+            r1 = f(a, b)
+            snap = fresh(r1)
+            r2 = f(a2, b2)
+            if not _same(r1, snap):
+                return ("earlier-result-changed-by-a-later-call", np.asarray(r1).tolist(), snap.tolist())
+            if np.shares_memory(r1, r2):
+                return ("results-of-two-calls-on-distinct-arguments-share-memory", True, False)
+            return None
+    raise ValueError(scenario)
+
+
+def purity_held_all(funcs, ch, dtype):
+    """every function called once (results KEPT), then every function called again on other arrays of the same shape: no kept
+    result may have changed (a work plane shared between functions, or between calls of one function, shows here)
+    -> [(name, observed, expected)]"""
+    arrs = purity_arrays(ch, dtype)
+    dt = np.dtype(dtype)
+    held = []
+    with np.errstate(all="ignore"):
+        for name, _key, f in funcs:
+            if ch == 1 and name in NS_NAMES:
+                continue
+            r = f(np.array(arrs["a"], dtype=dt), np.array(arrs["b"], dtype=dt))
+            held.append((name, r, np.array(r, copy=True)))
+        for name, _key, f in funcs:
+            if ch == 1 and name in NS_NAMES:
+                continue
+            f(np.array(arrs["a2"], dtype=dt), np.array(arrs["b2"], dtype=dt))
+    return arrs, [(name, np.asarray(r).tolist(), snap.tolist()) for name, r, snap in held if not _same(r, snap)]
+
+
+def purity_battery(ctx):
+    """C12's "pure", over call SEQUENCES: for every function of BLEND_FUNC x {1, 3, 4 channels} x {float32, float64} x scenario."""
+    funcs = blend_functions()
+    for ch in (1, 3, 4):
+        for dtype in ("float32", "float64"):
+            arrs = purity_arrays(ch, dtype)
+            for name, key, f in funcs:
+                if ch == 1 and name in NS_NAMES:
+                    continue        # the non-separable modes are defined on colours (3 channels, or 4 through the CMYK wrapper)
+                for sc in PURITY_SCENARIOS:
+                    ctx.count(("purity", name, ch, dtype, sc), nontrivial=True)
+                    ctx.hist("purity", sc)
+                    inp = {"fn": name, "key": key, "path": "purity", "scenario": sc, "channels": ch, "dtype": dtype, "arrays": arrs}
+                    try:
+                        r = purity_scenario(f, sc, arrs, dtype)
+                    except Exception as e:  # noqa
+                        ctx.fail(f"C12/purity/{sc}/{name}/raises-{type(e).__name__}", f"{name} raises {type(e).__name__} in the call sequence "
+                                 f"'{sc}' ({ch} channels, {dtype}): {str(e)[:120]}", inp, type(e).__name__, "a result")
+                        continue
+                    if r:
+                        ctx.fail(f"C12/purity/{sc}/{name}/{r[0]}", f"{name} is not pure over the call sequence '{sc}' ({ch} channels, {dtype}): {r[0]}",
+                                 inp, r[1], r[2])
+            arrs, bad = purity_held_all(funcs, ch, dtype)
+            ctx.count(("purity-held-all", ch, dtype), nontrivial=True)
+            ctx.hist("purity", "held-results-after-calling-every-function")
+            for name, got, want in bad[:3]:
+                ctx.fail(f"C12/purity/held-results-after-calling-every-function/{name}/earlier-result-changed-by-a-later-call",
+                         f"the array {name} returned changed while other blend functions were called ({ch} channels, {dtype})",
+                         {"fn": name, "path": "purity", "scenario": "held-results-after-calling-every-function", "channels": ch,
+                          "dtype": dtype, "arrays": arrs}, got, want)
+
+
+# ------------------------------------------------------------------------------------------
 # the check
 # ------------------------------------------------------------------------------------------
 def run(ctx: core.Run):
@@ -849,9 +1035,14 @@ def run(ctx: core.Run):
         ns_cases(ctx, st, drv, tab, fn, "rgb", cb, cs, "random")
         cb, cs = cmyk_k_stream()
         ns_cases(ctx, st, drv, tab, fn, "cmyk", cb, cs, "differing-K-matrix")
+        cb, cs = cmyk_boundary_stream()
+        ns_cases(ctx, st, drv, tab, fn, "cmyk", cb, cs, "boundary-lattice")
+        cb, cs = cmyk_boundary_stream(near_one=True)
+        ns_cases(ctx, st, None, tab, fn, "cmyk", cb, cs, "boundary-lattice-K-just-below-1", corr=False)
         cb, cs = ns_inputs(rng, n_rnd, 4)
         ns_cases(ctx, st, drv, tab, fn, "cmyk", cb, cs, "random")
     ns_identities(ctx, tab, rng, 2000 if quick else 30000)
+    purity_battery(ctx)
     spec_tie_ns(ctx, drv, rng, 300)
     if quick:
         for fn in NONSEP:
@@ -883,7 +1074,8 @@ def run(ctx: core.Run):
         "pairs incl. 0, 1, 0.5, 0.25 and their float32 neighbours, complementary and equal pairs; non-separable: sampled pairs of the "
         "17^3 lattice, random / grey / tied / primary triples on the RGB and the CMYK path, and a seed-independent CMYK matrix "
         "(7 colours x 7 colours x every ordered pair of K in {0, 1/255, 1/4, 1/2, 3/4, 254/255, 1}) on which the K carried, the partial "
-        "range clause and purity are evaluated; search additionally over the whole "
+        "range clause, the explicit bound and purity are evaluated, the boundary lattice of every CMYK channel ({0, 1/2, 1}^4 for backdrop x source: 6561 "
+        "pairs, + source K just below 1), and the purity battery over call sequences (every function x 1/3/4 channels x float32/float64 x 7 scenarios); search additionally over the whole "
         "17^3 x 17^3 lattice (thorough). distinct = distinct (function, grid, row) or (function, path, batch) keys; every case "
         "is non-trivial (each is one evaluation of a blend function on the real code)."
     )
@@ -919,6 +1111,15 @@ NOTES = [
     "largest deviation observed on the 17^3 x 17^3 lattice is about 1.4e-6",
     "purity (arguments unmodified) is checked by snapshots in the search; normal and dissolve return the source array itself "
     "(result_memory histogram) - the property only forbids modifying the arguments, so this is information",
+    "purity over call SEQUENCES (purity_battery; search, no model): for every function object reachable through BLEND_FUNC x {1, 3, 4 "
+    "channels} x {float32, float64}: the first of two results is kept and must be unchanged after the second call - and after every other "
+    "function was called (a work plane shared between calls or between functions); a result fed back as backdrop (a layer stack), as "
+    "source, as both; the same array as both arguments; strided views; results of calls on distinct arguments must not share memory. The "
+    "reference of every comparison is the same function on fresh copies, so no oracle of the values is involved",
+    "CMYK path, explicit bound (cmyk_range_bound / cmyk_full_k_is_zero, searched by check_cmyk_bound on every CMYK case incl. the seed-"
+    "independent boundary lattice {0, 1/2, 1}^4 x {0, 1/2, 1}^4 and source K just below 1): C = M = Y = 0 exactly where the source's K = 1; "
+    ">= -K / (1 - K + 1e-9) elsewhere. The known finding C12/cmyk-wrapper/range/below-zero lives inside this interval; a value below it "
+    "has a signature of its own (C12/cmyk-wrapper/range/<fn>/nonzero-cmy-at-source-K-1, .../below-the-bound-of-cmyk_range_bound)",
     "Darker/Lighter Color: the published definition is read with Lum as the 'value' of a colour; under the literal reading of Adobe's "
     "help text (plain sum of the channels) the code differs on 17 % of the 17^3 x 17^3 lattice pairs "
     "(darker_color_sum_reading_differs_from_lum_reading_on_lattice, thorough tier)",
@@ -953,6 +1154,18 @@ def replay(ctx, data):
     if fn in ("normal_src", "multiply_white", "screen_black", "darken_self", "lighten_self", "overlay_is_hardlight_swapped"):
         identities(ctx, tab, 255)
         print("identity failures:", [f["signature"] for f in ctx.failures])
+        return 0
+    if path == "purity":
+        funcs = blend_functions()
+        sc, ch, dtype = inp["scenario"], inp["channels"], inp["dtype"]
+        if sc == "held-results-after-calling-every-function":
+            _, bad = purity_held_all(funcs, ch, dtype)
+            print("held results that changed:", [(n, got, want) for n, got, want in bad][:3] or "none")
+        else:
+            f = [g for n, _k, g in funcs if n == fn]
+            print("no such function in BLEND_FUNC:" if not f else f"{fn} / {sc} / {ch} channels / {dtype}:",
+                  fn if not f else purity_scenario(f[0], sc, inp["arrays"], dtype))
+        print("expected:", data.get("expected"))
         return 0
     if fn not in tab:
         print("no such function in BLEND_FUNC:", fn)
